@@ -3,7 +3,7 @@
     Proofs: Proofs/ZeroRttProofs.v; models: Model/ZeroRtt.v, Model/FlowSend.v
     ([CODE_FIXED = true]: the model follows the repaired [StreamsState::zero_rtt_rejected]). *)
 From QV Require Import Lib.Tac Lib.Corr Model.FlowSend Model.ZeroRtt
-  Proofs.FlowSendProofs Proofs.ZeroRttProofs.
+  Proofs.RangeSetProofs Proofs.FlowSendProofs Proofs.FlowSendFull Proofs.ZeroRttProofs.
 Open Scope Z_scope.
 
 (** Whole-record equality (every one of the 24 fields of the model state: [next], [max],
@@ -55,6 +55,57 @@ Print Assumptions C17_rejected_max_data_refuted_before_fix.
 Theorem C17_model_follows_fixed_code : CODE_FIXED = true.
 Proof. reflexivity. Qed.
 Print Assumptions C17_model_follows_fixed_code.
+
+(** Retry: in a 0-RTT state ([AllEarly]: nothing acknowledged, nothing queued for retransmission)
+    [retransmit_all_for_0rtt] marks every visited stream on which something was sent as entirely
+    unsent again (per stream; [retry_stream] is applied to every local stream in turn). *)
+Theorem C17_retry_marks_stream_unsent_partial : forall id s s',
+  AllEarly s -> retry_stream RETRY_FIXED id s = Some s' ->
+  AllEarly s'
+  /\ (forall y, lookup id s'.(send) = Some (Some y) -> y.(s_unsent) = 0)
+  /\ (forall k, k <> id -> lookup k s'.(send) = lookup k s.(send)).
+Proof.
+  intros id s s' P R. destruct (retry_stream_spec _ _ _ _ R P) as (A & B & C & _). auto.
+Qed.
+Print Assumptions C17_retry_marks_stream_unsent_partial.
+
+(** The Retry preserves all invariants of C05 (in particular the in-flight accounting restarts
+    consistently): part of [reachable_full]; here the witness pair for the repaired defect. *)
+Theorem C17_retry_lone_fin_refuted_before_fix :
+  match retry_with false (state_after case_lone_fin) with
+  | Some s' =>
+      match lookup 0 s'.(send) with
+      | Some (Some x) => is_pending x = false /\ s'.(pendq) = [] /\ x.(s_state) = 1
+      | _ => False
+      end
+  | None => False
+  end.
+Proof. exact retry_lone_fin_refuted_before_fix. Qed.
+Print Assumptions C17_retry_lone_fin_refuted_before_fix.
+
+Theorem C17_retry_lone_fin_resent :
+  match do_retry (state_after case_lone_fin) with
+  | Some s' =>
+      match lookup 0 s'.(send) with
+      | Some (Some x) => x.(s_fin_pending) = true /\ s'.(pendq) = [0] /\ x.(s_unsent) = 0
+      | _ => False
+      end
+  | None => False
+  end.
+Proof. exact retry_lone_fin_fixed. Qed.
+Print Assumptions C17_retry_lone_fin_resent.
+
+(** FULL statement (NOT proved) [retry_resends_everything]: after the Retry every early stream
+    with data or a FIN sent is pending again AND in the pending queue.  Missing: the invariant
+    "a pending stream that was not reset is in the pending queue" over the early operations. It is
+    checked on the implementation by the FIN ledger of the oracle (Model/FlowSend.v [fin_run]). *)
+Definition C17_retry_resends_everything_full : Prop := forall sd mrb sw p0 i s g s' d k x,
+  0 <= sd <= 1 -> params_valid p0 = true -> grun i (start sd mrb sw p0) = (s, g) ->
+  g.(g_phase) = 0 -> s.(side) = 0 -> do_retry s = Some s' ->
+  0 <= d <= 1 -> 0 <= k < get_next d s -> lookup (sid 0 d k) s.(send) = Some (Some x) ->
+  x.(s_state) <> 3 -> (0 < x.(s_offset) \/ x.(s_state) <> 0) ->
+  exists y, lookup (sid 0 d k) s'.(send) = Some (Some y) /\ is_pending y = true
+            /\ y.(s_unsent) = 0 /\ In (sid 0 d k) s'.(pendq).
 
 (** FULL statement (NOT proved): [EarlyShape] holds after every sequence of early operations
     (open / write / finish / reset on local streams, transmission, loss, set_send_window, poll).
